@@ -79,7 +79,7 @@ def run(chk):
                     if rng.random() < 0.8:
                         sg.pop(k, None)
                 if not fault and rng.random() < 0.6:
-                    sg["top truncation"] = [float(round(rng.uniform(-2e4, 2e4))), float(round(rng.uniform(0, 8e4)))]
+                    sg["top truncation"] = [float(round(rng.uniform(-2e4, 1e4))), float(round(rng.uniform(0.4, 0.9) * min(sg["thickness"])))]
             f.update(g.slab_models(f["model"], 1.0, False))
             for sc in f.get("sections", []):
                 for k in KINDS:
@@ -99,8 +99,8 @@ def run(chk):
         fd["sections"] = [s for s in fd.get("sections", []) if s["coordinate"] != ci] + [newsec]
         slots = [cs.add_world(w, model=(k_ in (0, 4))) for k_, w in enumerate((wj, wa, wb, wc, wd))]
         cr = [((c[0] * PI) * (1 / 180.0), (c[1] * PI) * (1 / 180.0)) if sph else (float(c[0]), float(c[1])) for c in f["coordinates"]]
-        for qi in range(20):
-            q, d = line_query(rng, wj, sph, f, spread=rng.choice([0.3, 0.6, 1.2]))
+        for qi in range(20 if wi % 2 else 45):
+            q, d = line_query(rng, wj, sph, f, spread=rng.choice([0.3, 0.6, 1.2]) if wi % 2 else rng.choice([0.15, 0.3, 0.5]))
             if d < 0:
                 continue
             ids = [cs.p3(s, q, d, ALL) for s in slots]
